@@ -554,7 +554,7 @@ fn put_tris(o: &mut Out, mesh: &Mesh) {
 
 /// Witness predicate of the finding `C06-round-arc-subdivision-rounded-down`: some round join
 /// (arc = the turn angle) or round cap (two quarter arcs) of this input needs `n = ceil(arc/step)`
-/// chords for the tolerance but `round(log2 n)` subdivisions give fewer than `n` (n = 3, 5, 9, 10, 11, ...).
+/// chords for the tolerance but `round(log2 n)` subdivisions give fewer than `n` (n = 5, 9, 10, 11, 17..22, ...).
 /// Computed with a margin (lyon measures the arc with a polynomial atan2), so borderline inputs count as members.
 fn arc_rounded_down(span: f64, hw: f64, tol: f64) -> bool {
     let t = tol.min(hw);
@@ -666,8 +666,11 @@ fn stroke_case(ctx: &mut Ctx, fam: Fam) {
                     };
                     let r = hw - allowed - eps * hw;
                     if r <= 0.05 * hw {
+                        // nothing is demanded: the tolerance eats the whole half-width (empty checker input)
                         orc.skip("tolerance-exceeds-half-width");
-                        return (CaseOut { imp: o, orcl: orc.verdict }, None);
+                        let mut c = Out::new();
+                        c.t(prefix).u(1).u(2).f(delta).u(0).u(0);
+                        return (CaseOut { imp: o, orcl: orc.verdict }, Some(c));
                     }
                     (prefix, 2, inner_region(&poly, r, Some((0.25 * tol).min(0.5 * r))))
                 }
@@ -826,7 +829,7 @@ fn stroke2_case(ctx: &mut Ctx) {
 
 fn main() {
     let mut ctx = Ctx::from_args("C06");
-    let n = ctx.n(150, 5000);
+    let n = ctx.n(250, 5000);
     for _ in 0..n {
         stroke_case(&mut ctx, Fam::Cover);
         stroke_case(&mut ctx, Fam::Reach);
